@@ -205,6 +205,7 @@ func c06Handwritten() []string {
 		"\n",
 		"print 1",
 		"for i := range 1 10 2\n    for j := range i\n        if i > j\n            while false\n                print i j\n            end\n        end\n    end\nend\n",
+		"func fa a:[]any\n    print a\nend\nfunc gn a:[]num b:[][]any\n    print a b\nend\nfa [1]+[2]\nfa [1]*2\nfa []+[]\ngn []+[] [[1]]+[[]]\nx := [[1]+[2] [\"a\"]]\ny := {a:[1]*2 b:[\"a\"]}\nz:[]any\nz = [1]+[2]\nprint x y z [[]+[1] [\"s\"]] ([1]+[2]) [[1]*2 [true]+[false] []]\n",
 		"m := {a:1 b:{c:[1 {d:2}]} if:4 end:5 for:6}\nm[\"key with space\"] = 3\nprint m[\"key with space\"] m.if m.end m[\"for\"]\nfor k := range m\n    print k\nend\n",
 	}
 }
